@@ -199,6 +199,7 @@ func (fr *Frame) specEnvAt(cur *State, where string, pos token.Pos) *SpecEnv {
 		env.pkg = fr.fn.Parent().Pkg.Pkg
 	}
 	env.locals = fr.localsByName(pos)
+	env.guard = fr.curReach
 	env.loopHeads = fr.loopHeads
 	env.loopEntries = fr.loopEntries
 	for i, p := range fr.fn.Params {
@@ -266,6 +267,7 @@ func (fr *Frame) run(st0 *State, reach0 Term) []retPoint {
 		if st == nil {
 			continue
 		}
+		fr.curReach = reach
 		if lr != nil {
 			st = fr.enterLoop(lr, st, reach)
 		}
@@ -304,6 +306,7 @@ func (fr *Frame) run(st0 *State, reach0 Term) []retPoint {
 					vc.unsupportedf("irreducible control flow in %s", fn)
 				}
 				hl.curBack++
+				fr.curReach = oe.reach
 				if fr.backEdge(hl, oe.st, oe.reach) {
 					restart = index[h]
 					break
@@ -957,8 +960,8 @@ func (fr *Frame) unop(x *ssa.UnOp, st *State, reach Term) {
 				nv.L = append(nv.L, vc.sc.Def("ld", l))
 			}
 			v = nv
-			vc.sc.Assume(vc.wellTyped(v, st), "")
-			vc.sc.Assume(vc.ptrAllocated(v, st), "")
+			vc.sc.Assume(mkImplies(reach, vc.wellTyped(v, st)), "")
+			vc.sc.Assume(mkImplies(reach, vc.ptrAllocated(v, st)), "")
 		}
 		fr.vals[x] = v
 	case token.NOT:
@@ -1271,8 +1274,8 @@ func (fr *Frame) indexVal(x *ssa.Index, st *State, reach Term) {
 		at := v.T.Underlying().(*types.Array)
 		fr.oblige("index", reach, mkAnd(enc.idxLe(enc.idxLit(0), i), enc.idxLt(i, enc.idxLit(at.Len()))), "index in range")
 		out := enc.elemOfAV(v, i)
-		vc.sc.Assume(vc.wellTyped(out, st), "")
-		vc.sc.Assume(vc.ptrAllocated(out, st), "")
+		vc.sc.Assume(mkImplies(reach, vc.wellTyped(out, st)), "")
+		vc.sc.Assume(mkImplies(reach, vc.ptrAllocated(out, st)), "")
 		fr.vals[x] = out
 	case *FV:
 		if isString(v.T) {
